@@ -21,7 +21,7 @@ SOURCES = [('param/parameterized.py', 'Parameter.__set__'), ('param/parameterize
            ('param/_utils.py', 'async_executor'), ('param/_utils.py', '_to_async_gen'),
            ('param/reactive.py', 'rx._resolve'), ('param/reactive.py', 'rx._resolve_async'),
            ('param/reactive.py', 'rx._lazy_resolve'), ('param/reactive.py', 'rx._invalidate_current')]
-BUDGET_S = {'quick': 55, 'thorough': 420}
+BUDGET_S = {'quick': 70, 'thorough': 450}
 EXHAUSTIVE = {'quick': True, 'thorough': True}
 THOROUGH_WORKERS = 8
 TRUSTED = [
@@ -36,8 +36,10 @@ TRUSTED = [
     'Task.cancel() on a suspended task delivers CancelledError at the await at a later iteration (on a running / not yet started / '
     'already woken task via _must_cancel), awaiting a done future does not suspend, Future.set_result wakes the waiter through call_soon',
     'correspondence is differential testing: model = code only on the schedules executed',
-    'EXTENSION NOT COVERED BY THEOREMS: the watcher hook (a callback on one parameter assigning a plain value to the other) and '
-    'references with a dependency re-evaluated by source changes (bump -> _sync_refs) exist only in lean/ParamVerif/Async/ModelExt.lean '
+    'EXTENSIONS: the watcher hook (a callback on one parameter assigning a plain value to the other) is covered by the hook_* theorems '
+    '(plain-cancels-for-good, latest-wins, syncing-empty; not the per-write statement); references with a dependency re-evaluated by '
+    'source changes (bump -> _sync_refs) and results the parameter rejects (the write raises ValueError inside the task; the harness '
+    'parameters reject negative integers) are NOT covered by any theorem. All three exist only in lean/ParamVerif/Async/ModelExt.lean '
     '(proved equal to the core model when absent: driver_model_is_core_model); for them the verdict rests on model = code on the '
     'schedules executed plus the oracle lean/ParamVerif/Async/SpecExt.lean',
     'harness numbering of tasks: param.parameterized.async_executor is wrapped (delegating to the original) to number the _async_ref '
@@ -59,6 +61,10 @@ ASSUMPTIONS = [
     'other than asyncio\'s FIFO loop and user-supplied async_executor; the no-running-loop path of async_executor (run_until_complete); the '
     're-scheduling of _async_ref while the instance is uninitialised (unreachable on a running loop: the constructor finishes before the '
     'task starts); exceptions raised by the awaitables (Skip included)',
+    'reference identity: every assignment uses a fresh function object (model: a fresh reference id); assigning the SAME function '
+    'object twice (Python compares `refs.get(pname) is not ref`) is not exercised and not modelled; constructor-time references '
+    '(initialized=False branches of _async_ref / _resolve_ref) are not modelled; awaitables that raise, Future.set_exception and '
+    'user-side cancellation of the awaited future are not modelled',
     'rx pipelines: one input, one `.rx.pipe(async def)` node with a `.rx.watch` callback (watcher deliveries of the unchanged old value on '
     'every input change are modelled, Undefined/None deliveries are not recorded); a plain function returning a coroutine is NOT supported '
     'by rx (no Trigger is created: _resolve_async stores the value and then fails on self._trigger.param), and `param.rx(async_fn)` wraps the '
@@ -73,13 +79,14 @@ RULE = ('quick: corpus (the witness schedules of the repaired defects) + directe
         'four fully ticked / unticked generator schedules; references WITH A DEPENDENCY (coroutine / 2-await generator bound to a source '
         'parameter, alone or next to a second linked parameter) x 1-2 source changes x an optional plain assignment in every order, ticks in '
         'between, then the futures of all tasks (re-evaluations included) completed in several orders, plus one early completion at every '
-        'point; a WATCHER HOOK (on write of a: b = plain) in both directions x every schedule of <=2 assignments (3 in thorough); 24 rx '
+        'point; REJECTED RESULTS (one completion of every schedule of <=2 assignments carries a value the parameter rejects; a first reference '
+        'whose result is rejected followed by every schedule of two more assignments); a WATCHER HOOK (on write of a: b = plain) in both directions x every schedule of <=2 assignments (3 in thorough); 24 rx '
         'schedules; 2000 random schedules of <=5 assignments (generators with 1-3 '
         'awaits). thorough: the same with 3 assignments in EVERY mix of coroutine / 2-await generator / plain on 1-2 parameters, bursts of 4, '
         'completions before the assignment everywhere, 60000 random schedules, and every rx schedule of <=3 input changes. After every event '
         'the observation is compared with the model and checked by the oracle. non-trivial = at least one result of an awaitable was '
         'applied; distinct = distinct canonical case')
-COVERAGE_TARGETS = ['bump:while-task-registered', 'bump:also-reschedules-independent-reference', 'bump:no-dependent-reference',
+COVERAGE_TARGETS = ['step:result-rejected', 'complete:rejected-value', 'bump:while-task-registered', 'bump:also-reschedules-independent-reference', 'bump:no-dependent-reference',
                     'start:cancel-registered-older-evaluation', 'wake:cancelled-future:newer-task-registered',
                     'hook:in-step:cancels-registered', 'hook:in-step:unlinks', 'hook:in-step:not-linked', 'hook:on-driver-assignment',
                     'assign:coro', 'assign:agen', 'assign:plain:unlink-and-cancel', 'assign:plain:not-linked',
@@ -141,7 +148,16 @@ def _cls():
     global _CLS
     if _CLS is None:
         import param
-        _CLS = type('T', (param.Parameterized,), {n: param.Parameter(default=0, allow_refs=True) for n in NAMES})
+
+        class NonNegative(param.Parameter):
+            """accepts everything but negative integers: a result the parameter REJECTS (the write raises
+            ValueError inside the task, as a String parameter does for 42)"""
+            __slots__ = []
+
+            def _validate_value(self, val, allow_None):
+                if isinstance(val, int) and not isinstance(val, bool) and val < 0:
+                    raise ValueError(f'{self.name}: negative value {val}')
+        _CLS = type('T', (param.Parameterized,), {n: NonNegative(default=0, allow_refs=True) for n in NAMES})
     return _CLS
 
 
@@ -278,7 +294,8 @@ async def _drive_param(case, loop):
             elif kind == 'complete':
                 f = fut(e['t'], e['k'])
                 if not f.done():
-                    f.set_result(fut_value(e['t'], e['k']))
+                    # `bad`: a result the parameter rejects
+                    f.set_result(-fut_value(e['t'], e['k']) if e.get('bad') else fut_value(e['t'], e['k']))
             elif kind == 'bump':
                 src.x += 1
             else:
@@ -340,6 +357,7 @@ def run_impl(case):
     import warnings
     warnings.simplefilter('ignore')
     loop = asyncio.new_event_loop()
+    loop.set_exception_handler(lambda lp, ctx: None)      # tasks ending with a rejected result are expected
     try:
         drive = _drive_rx if case['kind'] == 'rx' else _drive_param
         return loop.run_until_complete(drive(case, loop))
@@ -576,6 +594,52 @@ def _dep_schedules(tier):
                                     yield out
 
 
+def _fault_schedules(tier):
+    """results the parameter rejects: (i) every schedule of <=2 assignments with ONE completion marked
+    bad; (ii) a first reference whose (first or second) result is rejected, then every schedule of two
+    more assignments — the parameter must behave as if the failed write had never been attempted"""
+    quick = tier == 'quick'
+    kinds = ['coro', 'agen2', 'plain']
+    for n in (1, 2):
+        for srcs in itertools.product(kinds, repeat=n):
+            if all(x == 'plain' for x in srcs):
+                continue
+            for params in _param_choices(n):
+                if quick and n == 2 and (params != (0, 0) or srcs.count('agen2') == 2):
+                    continue
+                for evs in _schedules(srcs, params):
+                    idx = [i for i, e in enumerate(evs) if e['e'] == 'complete']
+                    for i in (idx if not quick else idx[:1] + idx[-1:]):
+                        out = [dict(e) for e in evs]
+                        out[i]['bad'] = True
+                        yield out
+                        if quick and len(idx) == 1:
+                            break
+    for k0, badk in (('coro', 0), ('agen2', 0), ('agen2', 1)) if not quick else (('coro', 0), ('agen2', 1)):
+        for early_tick in (True, False) if not quick or k0 == 'coro' else (True,):
+            a0 = _assign(0, k0, 0, 0)
+            pre = [a0] + ([{'e': 'tick'}] if early_tick else [])
+            for k in range(len(a0['v'])):
+                pre.append(dict({'e': 'complete', 't': 0, 'k': k}, **({'bad': True} if k == badk else {})))
+                if k == badk:
+                    break
+            pre.append({'e': 'tick'})
+            for srcs in itertools.product(kinds, repeat=2):
+                if srcs[0] == 'plain' and srcs[1] == 'plain':
+                    continue
+                for params in ((0, 0), (0, 1), (1, 0)) if not quick else ((0, 0),):
+                    if quick and ('agen2' in srcs) and (k0 == 'agen2' or not early_tick):
+                        continue
+                    for evs in _schedules(srcs, params):
+                        out = [dict(e) for e in pre]
+                        for e in evs:
+                            e = dict(e)
+                            if e['e'] == 'complete':
+                                e['t'] += 1
+                            out.append(e)
+                        yield out
+
+
 def _hook_schedules(tier):
     """a watcher on one parameter that assigns a plain value to the other one: every schedule of two
     assignments (three in thorough) with the hook in both directions"""
@@ -587,6 +651,8 @@ def _hook_schedules(tier):
                     if hook[0] not in params:
                         continue            # the hooked parameter is never written
                     if n == 3 and 'agen2' in srcs:
+                        continue
+                    if tier == 'quick' and srcs.count('agen2') == 2:
                         continue
                     for evs in _schedules(srcs, params):
                         yield evs, hook
@@ -644,6 +710,8 @@ def _random_param_case(rng, max_assign):
         for ev in extra:
             if rng.random() < 0.9:
                 out.insert(rng.randint(max(0, len(out) - 6), len(out)), ev)
+    if rng.random() < 0.35:
+        out = [dict(e, bad=True) if e['e'] == 'complete' and rng.random() < 0.25 else e for e in out]
     if rng.random() < 0.9 and (not out or out[-1]['e'] != 'tick'):
         out.append({'e': 'tick'})
     return _mk(out, hook)
@@ -754,7 +822,7 @@ def cases(rng, tier, worker, nworkers):
             for params in _param_choices(2):
                 if tier == 'quick' and other == 'agen2' and params != (0, 0):
                     continue
-                for evs in _schedules(srcs, params, pre_complete=(tier == 'thorough')):
+                for evs in _schedules(srcs, params, pre_complete=(tier == 'thorough' and other in ('coro', 'plain'))):
                     if mine():
                         yield _mk(evs)
     # 3 assignments. quick: coroutine / plain on 1-2 parameters, and every pattern with one two-await
@@ -777,6 +845,8 @@ def cases(rng, tier, worker, nworkers):
     else:
         for srcs in itertools.product(['coro', 'agen2', 'plain'], repeat=3):
             for params in _param_choices(3):
+                if srcs.count('agen2') == 3 and params not in ((0, 0, 0), (0, 1, 0)):
+                    continue
                 for evs in _schedules(srcs, params):
                     if mine():
                         yield _mk(evs)
@@ -802,6 +872,10 @@ def cases(rng, tier, worker, nworkers):
     for evs in _dep_schedules(tier):
         if mine():
             yield _mk(evs)
+    # results the parameter rejects: the write raises inside the task
+    for evs in _fault_schedules(tier):
+        if mine():
+            yield _mk(evs)
     # a watcher that overrides the other parameter with a plain value
     for evs, hook in _hook_schedules(tier):
         if mine():
@@ -815,7 +889,7 @@ def cases(rng, tier, worker, nworkers):
         for c in itertools.islice(_rx_schedules(1), 0, None):
             if mine():
                 yield c
-    n_random = 2000 if tier == 'quick' else 60000 // nworkers
+    n_random = 1000 if tier == 'quick' else 60000 // nworkers
     for _ in range(n_random):
         yield _random_param_case(rng, 5)
 
@@ -837,6 +911,8 @@ def tags(case, impl):
     nb = sum(1 for e in evs if e['e'] == 'bump')
     if nb:
         t.append(f'bumps={min(nb, 3)}')
+    if any(e.get('bad') for e in evs):
+        t.append('rejected-result')
     return t
 
 
